@@ -57,11 +57,23 @@ def cases(draw):
                 recipe["sub"] = {"items": inner}
             else:
                 recipe["elements"] = [inner, {"id": 9002, "kind": "Integer", "kw": {}}]
+    elif draw(st.integers(0, 5)) == 0:
+        # several array-form dependencies; the values trigger different ones
+        keys = draw(st.lists(st.sampled_from(["a", "b", "c", "d"]), min_size=2, max_size=3, unique=True))
+        recipe = {"id": 9100, "kind": draw(st.sampled_from(["Element", "Object"])), "kw": {},
+                  "sub": {"dependencies": {k: draw(st.lists(st.sampled_from(["a", "b", "c", "d", "e"]), min_size=1,
+                                                            max_size=2, unique=True)) for k in keys}}}
+        if recipe["kind"] == "Object":
+            recipe["name"] = "Dep"
+            recipe["props"] = []
     schema = R.to_schema(recipe)
     n = draw(st.integers(2, 4))
     # threads draw (with repetition) from one small pool, so that the same value is validated by
     # several threads and several times
     pool = draw(values_for(schema, 3, 5))
+    if "dependencies" in canon(schema) and recipe.get("id") == 9100:
+        pool += [{"a": 1}, {"b": 1}, {"c": 1, "d": 2}, {"a": 1, "b": 2, "c": 3, "d": 4, "e": 5}, {"a": 1, "e": 1},
+                 {"d": 1}, {"b": 1, "a": 2}]
     if "format" in canon(schema):
         strs = ["12345678-1234-5678-1234-567812345678", "not-a-uuid", "1990-12-31T23:59:60Z", "yesterday", "ab", "abc"]
         pool += draw(st.lists(st.sampled_from(strs), min_size=2, max_size=3))
